@@ -145,11 +145,11 @@ theorem tbl_insertAccepts : insertAccepts .retryable = some true ∧ insertAccep
 theorem tbl_claim : (∀ b, claimSends b = !b) ∧ (∀ b, claimRemoves b = b) ∧ (∀ b, claimPathOk b = b) := by decide
 theorem tbl_finalize : (∀ b, finalizeAsserts b = b) ∧ (∀ b, finalizePathOk b = b) := by decide
 theorem tbl_fail_returns : (∀ b, failReturnsNotRemoved b = !b) ∧ (∀ b, failReturnsFulfilled b = b) := by decide
-theorem tbl_failAbandons : ∀ auto perm, failAbandons false auto perm = !(auto && !perm) := by decide
+theorem tbl_failAbandons : ∀ probe auto perm, failAbandons probe auto perm = (probe || !auto || perm) := by decide
 theorem tbl_failReason : failReason true = .recipientRejected ∧ failReason false = .retriesExhausted := by decide
 theorem tbl_failDrops (n : Nat) (b : Bool) : failDrops n b = (decide (n = 0) && b) := rfl
-theorem tbl_failEvents : failPushesFailed false = true ∧ (∀ perm, failPathEvent false perm = .paymentPathFailed) ∧
-    failPathEventFirst = true := by decide
+theorem tbl_failEvents : (∀ probe, failPushesFailed probe = !probe) ∧ (∀ perm, failPathEvent false perm = .paymentPathFailed) ∧
+    failPathEvent true true = .probeSuccessful ∧ failPathEvent true false = .probeFailed ∧ failPathEventFirst = true := by decide
 theorem tbl_abandonArm : abandonArm .abandoned = .stored ∧ abandonArm .awaitingInvoice = .argument ∧
     abandonArm .fulfilled = .nothing := by decide
 theorem tbl_abandonStoredTest (n : Nat) : abandonStoredTest n = decide (n = 0) := rfl
